@@ -7,6 +7,10 @@ register(
     lean_modules=["GtModel.Gen.ExprTables", "GtModel.Model.Expr", "GtModel.Model.ExprHost", "GtModel.Proofs.Expr",
                   "GtModel.Props.C19"],
     theorems=[
+        "GtModel.C19.host_never_asked_underscore",
+        "GtModel.C19.ghost_log_faithful",
+        "GtModel.C19.spy_erasure",
+        "GtModel.C19.host_calls_are_the_logged_reads",
         "GtModel.C19.no_underscore_getattr",
         "GtModel.C19.names_resolved",
         "GtModel.C19.names_resolved_default",
@@ -26,6 +30,10 @@ register(
         "GtModel.C19.Witness.prefix_format_bypass_witness",
         "GtModel.C19.Witness.nested_spec_refused_witness",
         "GtModel.C19.Witness.prefix_nested_spec_witness",
+        "GtModel.C19.Witness.member_of_generator_refused_witness",
+        "GtModel.C19.Witness.format_traverses_reflective_witness",
+        "GtModel.C19.Witness.format_reads_private_global_witness",
+        "GtModel.C19.Witness.format_underscore_attribute_of_frame_refused_witness",
     ],
     streams=["expr"],
     gen=expr_tables.gen,
@@ -33,19 +41,52 @@ register(
         "HOST CONTRACT: no whitelisted builtin and no public attribute/method of an object reachable from the "
         "expression's variables performs name-driven attribute traversal or hands out reflective objects, given that "
         "(a) str.format / str.format_map are unreachable (get_member substitutes _safe_format / _safe_format_map, whose "
-        "get_field applies the underscore rule: modelled, theorem concrete_host_no_underscore) and (b) members of "
-        "frame/code/traceback/generator/coroutine/async-generator/module objects cannot be read (theorem "
-        "reflective_member_refused).  Validated by the tripwire monitor of stream `expr` (keys format-field-attribute, "
+        "get_field refuses every ATTRIBUTE step whose name starts with an underscore — and nothing else: modelled, theorem "
+        "concrete_host_no_underscore) and (b) get_member reads no member of frame/code/traceback/generator/coroutine/"
+        "async-generator/module objects (theorem reflective_member_refused), so no frame, namespace dict or builtin is ever "
+        "obtained AS A VALUE.  Validated by the tripwire monitor of stream `expr` (keys format-field-attribute, "
         "reflective-builtin, call:*, operator:*).",
+        "CONTRACT GAP ON THE CURRENT CODE (monitor key format-traverses-reflective:<first attribute>, reported as a "
+        "violation until it is recorded in known_findings.json): clause (b) does not cover format fields.  "
+        "_SafeFormatter.get_field vets underscore ATTRIBUTE names only; gi_frame, gi_code, f_globals, f_locals, "
+        "f_builtins, f_code, co_filename are public names and index steps ([__builtins__], [_private_global]) are not "
+        "vetted, so '{0.gi_frame.f_globals[__builtins__][getattr]}'.format(g) returns '<built-in function getattr>', "
+        "'{0.gi_frame.f_code.co_filename}' the source path, '{0.gi_frame.f_globals[sys].modules[os].environ[HOME]}' an "
+        "environment variable.  Only text comes back (no object, no callable, no underscore-named attribute is read: the "
+        "letter of C19 holds), but get_member refuses every member of these objects and _SafeFormatter is documented to "
+        "obey the same rule.  The Lean host mirrors the traversal (witness format_traverses_reflective_witness); results "
+        "rendered from reflective objects are compared as 'some str' (CV.ostr / [\"s?\"]): the text itself (addresses, paths, "
+        "reprs of namespaces) is not modelled, the result class (str / which exception) is.",
         "The host contract is FALSE for TreeNode.editable_dict() on real tree nodes (finding D26, key "
         "public-method-exposes-private:editable_dict): it returns dict(self.__dict__).  The end-to-end claim holds only "
-        "modulo that finding; any other public API handing out a node's __dict__ fails the check.",
+        "modulo that finding.  Any other public member of a node class that hands out private state fails the check under "
+        "its own key: every public member of every node class of the tree under test is read, called without arguments and "
+        "called with every underscore attribute name (deterministically, every run); an exposure is the node's __dict__ "
+        "itself, a private MUTABLE container by identity (not tuples/scalars, not the child/parent nodes that documented "
+        "accessors return), or a private attribute name as a mapping key / first element of a pair (rule: "
+        "harness/streams/expr.py find_exposures).  `__class__` is not swept as an argument (isinstance() inside graphtage "
+        "makes the same runtime inquiry).",
         "Values bound in locals/globals are not graphtage Token instances.",
         "isinstance() inside get_value/get_member/eval asks the runtime for `__class__` of the operand; this runtime type "
         "inquiry is not counted as an attribute read of the evaluator.",
         "The tokenizer and infix_to_rpn are not modelled; the theorems hold for every token list.",
+        "Generators bound in the modelled environments are fresh (never started); the attribute tables of generator / frame "
+        "/ code objects in Model/ExprHost.lean are those of CPython 3.12 and are checked by the correspondence stream.",
     ],
     trusted=["harness/gen/expr_tables.py (translator of the Operator enum, DEFAULT_GLOBALS and the docstring whitelist)",
              "harness/streams/expr.py sentinel tripwire and its stack-based mechanism classification"],
-    partial="",
+    partial="The theorems are statements about the EVALUATOR (get_member / get_value / eval) for every host: "
+            "host_never_asked_underscore (no name passed to the host's getattr starts with an underscore, stated on the "
+            "recording wrapper `spy h`, so it does not depend on the evaluator's own log; HostOK.getattr is assumed for "
+            "public names only) and ghost_log_faithful (the evaluator's log equals what the host was asked); "
+            "no_underscore_getattr / names_resolved / reads_classified speak about the evaluator's own log, written at two "
+            "call sites; spy_erasure shows the wrapper is invisible (same result, host state and log), so these are "
+            "statements about the run on h itself (host_calls_are_the_logged_reads).  names_resolved(_default) remain "
+            "statements about the log written at the single lookup site in get_value (name resolution involves no host call "
+            "that could be recorded independently); their tie to the code is the stream's wrapped get_value.  NOT proved: "
+            "anything about what happens INSIDE host operations (call, getitem, format traversal) except on the concrete "
+            "host of the stream (concrete_host_no_underscore).  The whole-system statement of C19 therefore rests on the "
+            "stream: instrumented getattr list compared with the model's log on every case, tripwired sentinels, real tree "
+            "nodes with the exposure monitor.  Known to fail end to end: D26 (editable_dict); contract gap: format fields "
+            "traverse generator/frame/code/namespace objects and return their text (format-traverses-reflective:*).",
 )
